@@ -379,6 +379,35 @@ func (w *World) checkC12() []Violation {
 			}
 		}
 	}
+	// one queue operation per regionserver: in a run without faults (no retry
+	// rounds) the calls of one SendBatch that go to one regionserver travel in
+	// one multi request - a server orders actions within a request only
+	if len(w.Plan.Faults) == 0 && len(w.Plan.Rules) == 0 {
+		for _, t := range w.Recs {
+			for _, r := range t {
+				if r.Op.Kind != "batch" || !r.Done || batchInvalid(r.Op) != "" {
+					continue
+				}
+				perServer := map[int]map[uint64]bool{}
+				for i := range r.Op.Batch {
+					for _, x := range byNonce[r.Op.Batch[i].Nonce] {
+						if x.Multi == 0 {
+							continue
+						}
+						if perServer[x.Server] == nil {
+							perServer[x.Server] = map[uint64]bool{}
+						}
+						perServer[x.Server][x.Multi] = true
+					}
+				}
+				for sv, ms := range perServer {
+					if len(ms) > 1 {
+						vs = append(vs, w.viol("C12", "batch-split", "task %d op %d: the %d calls of the batch for regionserver rs%d arrived in %d separate multi requests in a fault-free run", r.Task, r.Idx, len(r.Op.Batch), sv, len(ms)))
+					}
+				}
+			}
+		}
+	}
 	// order: within each region action of each multi, calls of one batch appear in batch order
 	type key struct {
 		multi uint64
